@@ -168,6 +168,12 @@ def main():
         else:
             log(f"unknown property {pid}")
             return 2
+        if tier == "thorough" and pid in ("C01", "C05", "C16") and not replay and os.environ.get("VERIF_NO_MIRI") != "1":
+            # sanitizer batch: the same driver, interpreted by Miri (lib/py/p_miri.py)
+            import p_miri
+
+            mode, cases, what = p_miri.batch_for(pid, seed)
+            p_miri.run_batch(run, mode, cases, what)
         return run.finish()
     except Inconclusive as e:
         log(f"[{pid}] INCONCLUSIVE: {e}")
